@@ -18,15 +18,16 @@ const apdPath = "github.com/cockroachdb/apd/v3"
 
 // World is one loaded, type-checked and SSA-lowered configuration of /repo.
 type World struct {
-	Repo  string
-	Arch  string
-	Fset  *token.FileSet
-	Pkg   *packages.Package
-	Prog  *ssa.Program
-	SSA   *ssa.Package
-	Funcs map[string]*ssa.Function // short name -> function (source functions only)
-	Names []string                 // sorted short names
-	Files []string
+	nonNilDepth int
+	Repo        string
+	Arch        string
+	Fset        *token.FileSet
+	Pkg         *packages.Package
+	Prog        *ssa.Program
+	SSA         *ssa.Package
+	Funcs       map[string]*ssa.Function // short name -> function (source functions only)
+	Names       []string                 // sorted short names
+	Files       []string
 
 	sums          map[*ssa.Function]*Summary
 	prologueCheck func(*ssa.Function) (bool, string)
